@@ -247,7 +247,7 @@ func shuffledRows(r *Rng, rows [][]string, mode int) [][]string {
 }
 
 func genC08(r *Rng, tier string, i int) map[string]any {
-	f := genFeed(r, feedOpts{})
+	f := genFeed(r, feedOpts{edgeSeq: true})
 	if i%6 == 4 {
 		renameIDs(r, f)
 	}
@@ -543,7 +543,7 @@ func genC11(r *Rng, tier string, i int) map[string]any {
 func init() {
 	props["C08"] = func() Prop {
 		return &staticProp{id: "C08", nQuick: 1500, nThor: 60000, oracle: oracleC08, gen: genC08,
-			rule: "well-formed feeds (as C01) with interleaved, unordered stop times over several trips and unordered shape points over several shapes, sequence numbers crossing 9/10; the rows of stop_times.txt and shapes.txt are additionally presented reversed, riffled and randomly permuted; all four parses must agree, sequences must ascend, shapes be ordered by id, every other collection keep file order; distinct = distinct input JSON; non-trivial = at least two trips with at least two stop times"}
+			rule: "well-formed feeds (as C01) with interleaved, unordered stop times over several trips and unordered shape points over several shapes, sequence numbers crossing 9/10 and, for shape points, at and beyond the edge of the 32-bit range (2147483647 kept, larger and negative-overflow values skipped, none may wrap into the order); the rows of stop_times.txt and shapes.txt are additionally presented reversed, riffled and randomly permuted; all four parses must agree, sequences must ascend, shapes be ordered by id, every other collection keep file order; distinct = distinct input JSON; non-trivial = at least two trips with at least two stop times"}
 	}
 	props["C09"] = func() Prop {
 		return &staticProp{id: "C09", nQuick: 1500, nThor: 60000, oracle: oracleC09, gen: genC09,
